@@ -2361,3 +2361,132 @@ def translate_translator(path):
              node_inductive(tree), resolution_constant(tree), KeyTranslator(tree).translate(), DepsTranslator(tree).translate()] + texts + \
             [translation_state_default(tree), to_increment_commands_text(tree), vm_init_text(tree), vm_run_text(tree), HoldVoltageTranslator(tree).translate(), BuilderTranslator(tree).translate(), '']
     return '\n\n'.join(parts)
+
+
+# =====================================================================================================================
+# Round 4: SimpleExpression (qupulse/program/__init__.py).  A SimpleExpression is (base, offsets) = QV.C17.SExpr.sexpr; the other
+# operand of a binary operator is a python number (SNum) or a SimpleExpression (SExp) (= sval; for any other type the methods
+# return NotImplemented: None).  Accepted method bodies: `if isinstance(other, (float, int, TimeType)): return <ctor>`,
+# `if type(other) == type(self): <copy + merge loop> return <ctor>`, `return NotImplemented`, `return self.<m>(<expr>)`,
+# `return (-self).<m>(other)`, `x = 1 / other`, value(): accumulate loop.
+
+class SExprTranslator:
+    def __init__(self, tree):
+        self.cl = _class(tree, 'SimpleExpression')
+        fields = [(s.target.id, _ann(s.annotation)) for s in self.cl.body if isinstance(s, ast.AnnAssign)]
+        if fields != [('base', 'NumVal'), ('offsets', 'Mapping[str, NumVal]')] or not _is_dataclass(self.cl):
+            raise Unsupported('SimpleExpression fields %s' % fields)
+
+    def q(self, e, env):
+        """number valued expression; env: name -> 'Q' | 'se'"""
+        if isinstance(e, ast.Constant) and type(e.value) is int:
+            return '(inject_Z (%d))' % e.value
+        if isinstance(e, ast.Name) and env.get(e.id) == 'Q':
+            return e.id
+        if isinstance(e, ast.Attribute) and isinstance(e.value, ast.Name) and env.get(e.value.id) == 'se' and e.attr == 'base':
+            return '(fst %s)' % e.value.id
+        if isinstance(e, ast.UnaryOp) and isinstance(e.op, ast.USub):
+            return '(- %s)%%Q' % self.q(e.operand, env)
+        if isinstance(e, ast.BinOp) and type(e.op) in (ast.Add, ast.Sub, ast.Mult, ast.Div):
+            return '(%s %s %s)%%Q' % (self.q(e.left, env), {ast.Add: '+', ast.Sub: '-', ast.Mult: '*', ast.Div: '/'}[type(e.op)], self.q(e.right, env))
+        if isinstance(e, ast.Call) and isinstance(e.func, ast.Attribute) and e.func.attr == 'get' and isinstance(e.func.value, ast.Name) \
+                and env.get(e.func.value.id) == 'dict' and len(e.args) == 2 and _u(e.args[1]) == '0' and isinstance(e.args[0], ast.Name) \
+                and env.get(e.args[0].id) == 'name':
+            return '(oget %s %s)' % (e.args[0].id, e.func.value.id)
+        raise Unsupported('number expression ' + _u(e))
+
+    def offsets(self, e, env):
+        if isinstance(e, ast.Attribute) and isinstance(e.value, ast.Name) and env.get(e.value.id) == 'se' and e.attr == 'offsets':
+            return '(snd %s)' % e.value.id
+        if isinstance(e, ast.Name) and env.get(e.id) == 'dict':
+            return e.id
+        if isinstance(e, ast.DictComp) and len(e.generators) == 1 and not e.generators[0].ifs and _u(e.generators[0].target) == '(name, value)' \
+                and _u(e.key) == 'name':
+            it = e.generators[0].iter
+            if isinstance(it, ast.Call) and isinstance(it.func, ast.Attribute) and it.func.attr == 'items' and not it.args:
+                src = self.offsets(it.func.value, env)
+                return '(map (fun nv => (fst nv, %s)) %s)' % (self.q(e.value, dict(env, value='Q')).replace('value', '(snd nv)'), src)
+        raise Unsupported('offsets expression ' + _u(e))
+
+    def ctor(self, e, env):
+        if not (isinstance(e, ast.Call) and _u(e.func) == 'SimpleExpression' and len(e.args) == 2 and not e.keywords):
+            raise Unsupported('constructor ' + _u(e))
+        return '(%s, %s)' % (self.q(e.args[0], env), self.offsets(e.args[1], env))
+
+    def binary(self, name):
+        """__add__ / __mul__: isinstance chain on `other`"""
+        m = _method(self.cl, name)
+        if [x.arg for x in m.args.args] != ['self', 'other']:
+            raise Unsupported(name + ' signature')
+        body = _body(m)
+        arms = {'SNum': None, 'SExp': None}
+        aux = []
+        for s in body[:-1]:
+            if not isinstance(s, ast.If) or s.orelse:
+                raise Unsupported('%s: statement %s' % (name, _u(s)[:60]))
+            t = _u(s.test)
+            if t == 'isinstance(other, (float, int, TimeType))' and arms['SNum'] is None:
+                if len(s.body) != 1 or not isinstance(s.body[0], ast.Return):
+                    raise Unsupported(name + ': number arm')
+                arms['SNum'] = 'Some (SExp %s)' % self.ctor(s.body[0].value, {'self': 'se', 'other': 'Q'})
+            elif t == 'type(other) == type(self)' and arms['SExp'] is None:
+                b = s.body
+                if len(b) != 3 or _u(b[0]) != 'offsets = self.offsets.copy()' or not isinstance(b[1], ast.For) or not isinstance(b[2], ast.Return):
+                    raise Unsupported(name + ': expression arm')
+                lp = b[1]
+                if _u(lp.target) != '(name, value)' or _u(lp.iter) != 'other.offsets.items()' or len(lp.body) != 1 or lp.orelse:
+                    raise Unsupported(name + ': merge loop')
+                st = lp.body[0]
+                if not (isinstance(st, ast.Assign) and _u(st.targets[0]) == 'offsets[name]'):
+                    raise Unsupported(name + ': merge statement')
+                v = self.q(st.value, {'value': 'Q', 'offsets': 'dict', 'name': 'name'})
+                aux.append('Fixpoint gen_se%s_loop (l : list (nat * Q)) (offsets : list (nat * Q)) {struct l} : list (nat * Q) :=\nmatch l with\n'
+                           "| (name, value) :: l' =>\nlet offsets := (aset Nat.eqb name %s offsets) in\ngen_se%s_loop l' offsets\n| [] => offsets\nend." % (name.strip('_').join(['_', '']), v, name.strip('_').join(['_', ''])))
+                arms['SExp'] = ('let offsets := (snd self) in\nlet offsets := gen_se%s_loop (snd other) offsets in\nSome (SExp %s)'
+                                % (name.strip('_').join(['_', '']), self.ctor(b[2].value, {'self': 'se', 'other': 'se', 'offsets': 'dict'})))
+            else:
+                raise Unsupported('%s: test %s' % (name, t))
+        if _u(body[-1]) != 'return NotImplemented' or arms['SNum'] is None:
+            raise Unsupported(name + ': final return')
+        return '\n\n'.join(aux + ['Definition gen_se_%s (self : sexpr) (other : sval) : option sval :=\nmatch other with\n| SNum other =>\n%s\n| SExp other =>\n%s\nend.'
+                                   % (name.strip('_'), arms['SNum'], arms['SExp'] or 'None')])
+
+    def translate(self):
+        out = [self.binary('__add__'), self.binary('__mul__')]
+        want = {'__radd__': 'return self.__add__(other)', '__rmul__': 'return self.__mul__(other)', '__sub__': 'return self.__add__(-other)',
+                '__rsub__': 'return (-self).__add__(other)'}
+        for n, w in want.items():
+            if [_u(s) for s in _body(_method(self.cl, n))] != [w]:
+                raise Unsupported('%s: %s' % (n, [_u(s) for s in _body(_method(self.cl, n))]))
+        neg = _body(_method(self.cl, '__neg__'))
+        if len(neg) != 1 or not isinstance(neg[0], ast.Return):
+            raise Unsupported('__neg__')
+        out.append('Definition gen_se_neg (self : sexpr) : sexpr :=\n%s.' % self.ctor(neg[0].value, {'self': 'se'}))
+        out.append('Definition gen_se_radd (self : sexpr) (other : sval) : option sval := gen_se_add self other.\n'
+                   'Definition gen_se_rmul (self : sexpr) (other : sval) : option sval := gen_se_mul self other.\n'
+                   '(* -other on a number / on a SimpleExpression (its __neg__) *)\n'
+                   'Definition gen_se_sub (self : sexpr) (other : sval) : option sval :=\n'
+                   'gen_se_add self (match other with SNum other => SNum (- other)%Q | SExp other => SExp (gen_se_neg other) end).\n'
+                   'Definition gen_se_rsub (self : sexpr) (other : sval) : option sval := gen_se_add (gen_se_neg self) other.')
+        td = [_u(s) for s in _body(_method(self.cl, '__truediv__'))]
+        if td != ['inv = 1 / other', 'return self.__mul__(inv)']:
+            raise Unsupported('__truediv__: %s' % td)
+        out.append('(* x / 0 raises ZeroDivisionError: None *)\nDefinition gen_se_truediv (self : sexpr) (other : Q) : option sval :=\n'
+                   'if Qeq_bool other 0 then None else\nlet inv := ((inject_Z (1)) / other)%Q in\ngen_se_mul self (SNum inv).')
+        v = _body(_method(self.cl, 'value'))
+        if [_u(s) for s in v] != ['value = self.base', 'for name, factor in self.offsets.items():\n    value += scope[name] * factor', 'return value']:
+            raise Unsupported('value: %s' % [_u(s) for s in v])
+        out.append('Fixpoint gen_se_value_loop (l : list (nat * Q)) (scope : nat -> Q) (value : Q) {struct l} : Q :=\nmatch l with\n'
+                   "| (name, factor) :: l' =>\nlet value := (value + (scope name) * factor)%Q in\ngen_se_value_loop l' scope value\n| [] => value\nend.\n\n"
+                   'Definition gen_se_value (self : sexpr) (scope : nat -> Q) : Q :=\nlet value := (fst self) in\ngen_se_value_loop (snd self) scope value.')
+        return '\n\n'.join(out)
+
+
+def translate_simple_expression(path):
+    with open(path) as fh:
+        tree = ast.parse(fh.read())
+    parts = ['(* GENERATED by /verif/translate/py2gallina_c17.py (SExprTranslator) from %s: SimpleExpression.__add__/__radd__/__sub__/__rsub__/'
+             '__neg__/__mul__/__rmul__/__truediv__/value -- do not edit *)' % path,
+             'From Coq Require Import ZArith QArith List Bool.', 'Require Import QV.C17.Model QV.C17.SExpr.', 'Import ListNotations.', '',
+             SExprTranslator(tree).translate(), '']
+    return '\n'.join(parts)
